@@ -461,6 +461,11 @@ func runVC(kind string, doc *J, validate bool, note string) {
 		case !looseEqual(r.vc, r2.vc):
 			sig, detail = "reparsed-object-differs", fmt.Sprintf("%+v vs %+v", r.vc, r2.vc)
 		}
+
+		if sig != "" && vcHasCaseVariant(doc) {
+			// same cause: the output is written with sorted member names, so another one of the case variants comes last
+			sig = "case-variant-of-known-member"
+		}
 	}
 
 	if sig != "" {
@@ -594,6 +599,10 @@ func runVP(kind string, doc *J, note string) {
 			sig, detail = "reparse-differs", string(r2.outRaw)
 		case !looseEqual(r.vp, r2.vp):
 			sig, detail = "reparsed-object-differs", fmt.Sprintf("%+v vs %+v", r.vp, r2.vp)
+		}
+
+		if sig != "" && vpHasCaseVariant(doc) {
+			sig = "case-variant-of-known-member"
 		}
 	}
 
